@@ -99,6 +99,15 @@ func genC02(seed uint64, tier string) *plan.Plan {
 		for i := 1 + r.IntN(3); i > 0; i-- {
 			pl.Ops = append(pl.Ops, plan.Op{K: "peerstall", A: int64(r.IntN(400)), B: int64(5 + r.IntN(300))})
 		}
+		// ... and stalls that begin just before a send, so that the send is the one that blocks
+		var ops []plan.Op
+		for _, op := range pl.Ops {
+			if op.K == "data" && r.IntN(4) == 0 {
+				ops = append(ops, plan.Op{K: "stallnow", B: int64(5 + r.IntN(300))})
+			}
+			ops = append(ops, op)
+		}
+		pl.Ops = ops
 	}
 	genSchedule(r, pl, 2, 60*len(pl.Ops))
 	return pl
